@@ -139,6 +139,9 @@ func genCfg(rnd *tr.Rand, focus string) *caseCfg {
 		case "et-backlog":
 			// edge-triggered, more than IOV_MAX queued chunks behind a backlog: every batch must be followed up
 			c.et, c.sndbuf, c.wbufcap = true, 4096, 1024
+		case "readfrom-after-spill":
+			// a backlog spilled into the list part of the outbound buffer, a partial drain, then ReadFrom + Flush
+			c.sndbuf, c.wbufcap = 4096, 1024
 		case "shutdown-sweep":
 			c.maxConns = 3
 		case "register-fails":
@@ -598,6 +601,28 @@ func runCase(w *tr.Writer, seed uint64, idx int, focus string) {
 			close(h.release)
 			woken(seq, 500*time.Millisecond)
 			quiet()
+		}
+		if cfg.scenario == "readfrom-after-spill" && len(peers) == 1 {
+			p := peers[0]
+			send := func(b string) {
+				seq := rec.seq()
+				n, _ := p.conn.Write([]byte(b))
+				p.sent = append(p.sent, []byte(b)[:n]...)
+				woken(seq, 500*time.Millisecond)
+				quiet()
+			}
+			send("go") // second OnTraffic: a 200000-byte Write while the peer is not reading
+			seq := rec.seq()
+			recvSome(p, 30000, 50*time.Millisecond) // partial drain: the ring part empties, list nodes stay
+			woken(seq, 100*time.Millisecond)
+			quiet()
+			send("rf") // third OnTraffic: ReadFrom + Flush
+			for round := 0; round < 200; round++ {
+				if recvSome(p, 1<<20, 5*time.Millisecond) == 0 && round > 3 {
+					break
+				}
+				quiet()
+			}
 		}
 		if cfg.scenario == "async-flood" && len(peers) > 0 {
 			// 1500 asynchronous writes are issued while the loop is busy inside OnTraffic
